@@ -2,20 +2,6 @@
    function by function, producing the mini-Rust IR instead of tokens. *)
 From Join Require Import Tok Names Ast Ir.
 
-(* ---- is_block_expr (parse/utils.rs:33) on tokens: syn's Expr::Block is
-        outer attributes, an optional label, a brace group ---- *)
-Fixpoint strip_attrs (ts : list tt) : list tt :=
-  match ts with
-  | TP c _ :: TG DBracket _ :: r => if String.eqb c "#" then strip_attrs r else ts
-  | _ => ts
-  end.
-Definition is_block (o : operand) : bool :=
-  match strip_attrs o with
-  | [TG DBrace _] => true
-  | [TP q _; TI _; TP c _; TG DBrace _] => String.eqb q "'" && String.eqb c ":"
-  | _ => false
-  end.
-
 (* ---- JoinOutput::new: splitting a chain into steps at Deferred members (138-159) ---- *)
 Fixpoint split_steps (ms : list action) : list (list action) :=
   match ms with
